@@ -1,9 +1,25 @@
-"""Translator for C14: the literal tables of ford/fixed2free2.py (comment characters,
-column constants, OpenMP sentinel) -> lean/FordModel/Generated/C14.lean.
-Raises when a construct is not found (counts as 'tie broken')."""
+"""Translator for C14: the tables of ford/fixed2free2.py (comment characters, column
+constants, OpenMP sentinel, overflow mark, variant flags) and the extension lists of a
+default project -> lean/FordModel/Generated/C14.lean.
+
+Round 5: the tables are no longer read off the *spelling* of the assignments in
+`FortranLine.__analyse` (an `ast` pattern per statement broke on every harmless rewrite:
+a literal hoisted to a constant, a renamed local, De Morgan on a condition, a helper
+function).  They are derived from the *meaning* of the code: the real `FortranLine` is
+run on stub lines and each table is the set / threshold / literal that explains what it
+does - and the translator raises (tie broken, never a pass) when the behaviour does not
+have the expected shape (a threshold that is not one, an overflow text that is not
+`<literal> + line[k:]`, no or several OpenMP sentinels, ...).  The only thing still taken
+from the source text is the list of *candidate* sentinels (every string constant of the
+module), each of which is then tested on the real code.
+
+Public behaviour used: `FortranLine(line, length_limit)`, `str(...)`, `.is_regular`,
+`.isContinuation`, `.excess_line`, `.continueLine()`.
+"""
 from __future__ import annotations
 
 import ast
+import importlib
 from pathlib import Path
 
 from harness import common
@@ -13,98 +29,169 @@ def _lean_str(s: str) -> str:
     return "[" + ", ".join("Char.ofNat %d" % ord(c) for c in s) + "]"
 
 
+def _lean_strs(xs) -> str:
+    return "[" + ", ".join(_lean_str(x) for x in xs) + "]"
+
+
+PROBE_CHARS = [chr(i) for i in range(1, 256) if chr(i) not in "\n\r"] + ["С", "　"]
+
+
+def _fortran_line(repo: Path):
+    common.import_ford()
+    mod = importlib.import_module("ford.fixed2free2")
+    got = Path(mod.__file__).resolve()
+    if Path(repo).resolve() not in got.parents:
+        raise LookupError(f"ford.fixed2free2 imported from {got}, not from {repo}")
+    return mod, mod.FortranLine
+
+
+def _threshold(pred, lo, hi, what):
+    """the n0 such that pred(n) holds exactly for n <= n0 (lo <= n <= hi); raises when pred is not of that shape"""
+    vals = [bool(pred(n)) for n in range(lo, hi + 1)]
+    if not vals[0] or vals[-1]:
+        raise LookupError(f"fixed2free2.FortranLine: {what} is not a threshold on the line length")
+    n0 = lo + vals.index(False) - 1
+    if any(vals[i] != (lo + i <= n0) for i in range(len(vals))):
+        raise LookupError(f"fixed2free2.FortranLine: {what} is not monotone in the line length")
+    return n0
+
+
 def extract(repo: Path) -> dict:
-    src = (repo / "ford" / "fixed2free2.py").read_text()
-    tree = ast.parse(src)
-    cls = next(n for n in tree.body if isinstance(n, ast.ClassDef) and n.name == "FortranLine")
-    fn = {f.name: f for f in cls.body if isinstance(f, ast.FunctionDef)}
-    ana = fn["_FortranLine__analyse"] if "_FortranLine__analyse" in fn else fn["__analyse"]
+    mod, FL = _fortran_line(repo)
     out = {}
-    for node in ast.walk(ana):
-        if isinstance(node, ast.Assign) and len(node.targets) == 1 and isinstance(node.targets[0], ast.Attribute):
-            name = node.targets[0].attr
-            v = node.value
-            if name == "isComment" and isinstance(v, ast.Compare) and isinstance(v.ops[0], ast.In):
-                out["commentChars"] = v.comparators[0].value
-            if name == "isShort":
-                # `len(line) <= 6`            (as the code is)
-                # `len(line) <= 6 or not line.strip()`   (blank-only lines are short: variant blankShort)
-                cmp = v
-                out["blankShort"] = False
-                if isinstance(v, ast.BoolOp) and isinstance(v.op, ast.Or) and len(v.values) == 2:
-                    cmp, other = v.values
-                    if (isinstance(other, ast.UnaryOp) and isinstance(other.op, ast.Not)
-                            and isinstance(other.operand, ast.Call)
-                            and isinstance(other.operand.func, ast.Attribute)
-                            and other.operand.func.attr == "strip" and not other.operand.args):
-                        out["blankShort"] = True
-                    else:
-                        raise LookupError("fixed2free2.FortranLine.__analyse: isShort has an unknown second disjunct")
-                if isinstance(cmp, ast.Compare) and isinstance(cmp.ops[0], ast.LtE):
-                    out["shortThreshold"] = cmp.comparators[0].value
-            if name == "isNewComment":
-                # `"!" in fivechars and not self.isComment`, optionally (variant col7Comment)
-                # `("!" in fivechars or (not line[:6].strip() and line[6:].lstrip()[:1] == "!")) and not ...`
-                has_in = any(isinstance(c, ast.Compare) and isinstance(c.ops[0], ast.In)
-                             and isinstance(c.left, ast.Constant) and c.left.value == "!"
-                             and isinstance(c.comparators[0], ast.Name) for c in ast.walk(v))
-                calls = sorted(c.func.attr for c in ast.walk(v)
-                               if isinstance(c, ast.Call) and isinstance(c.func, ast.Attribute))
-                slices = {(getattr(c.lower, "value", None), getattr(c.upper, "value", None))
-                          for c in ast.walk(v) if isinstance(c, ast.Slice)}
-                if has_in and not calls and not slices:
-                    out["col7Comment"] = False
-                elif has_in and calls == ["lstrip", "strip"] and slices == {(None, 6), (6, None), (None, 1)}:
-                    out["col7Comment"] = True
-                # anything else: not found -> LookupError below
-            if name == "isLong":
-                for c in ast.walk(v):
-                    if isinstance(c, ast.Compare) and isinstance(c.ops[0], ast.Gt):
-                        out["longThreshold"] = c.comparators[0].value
-            if name == "isOMP":
-                for c in ast.walk(v):
-                    if isinstance(c, ast.Compare) and isinstance(c.ops[0], ast.Eq):
-                        out["ompSentinel"] = c.comparators[0].value
-            if name == "isContinuation":
-                for c in ast.walk(v):
-                    if isinstance(c, ast.Compare) and isinstance(c.ops[0], ast.Eq) and isinstance(c.comparators[0], ast.Constant):
-                        out["notContChar"] = c.comparators[0].value
-            if name == "excess_line" and isinstance(v, ast.BinOp):
-                for c in ast.walk(v):
-                    if isinstance(c, ast.Slice) and isinstance(c.lower, ast.Constant):
-                        out["colLimit"] = c.lower.value
-                if isinstance(v.op, ast.Add) and isinstance(v.left, ast.Constant) and isinstance(v.left.value, str):
-                    out["excessLiteral"] = v.left.value
+
+    def probe(line, lim=True):
+        try:
+            return FL(line, lim)
+        except Exception as e:   # noqa: BLE001
+            raise LookupError(f"fixed2free2.FortranLine raised {type(e).__name__} on the probe line {line!r}") from e
+
+    # --- comment characters: column 1 makes the line a comment that is rewritten to `!...`
+    def is_comment_char(c):
+        line = c + "     x = 1\n"
+        f = probe(line)
+        return (not f.is_regular) and str(f) == "!" + line[1:]
+
+    out["commentChars"] = "".join(c for c in PROBE_CHARS if is_comment_char(c))
+    if not out["commentChars"]:
+        raise LookupError("fixed2free2.FortranLine: no comment character found by probing")
+
+    # --- `len(line) <= 6`: a line of non-blank characters is not statement-carrying up to that length
+    out["shortThreshold"] = _threshold(lambda n: not probe("x" * n).is_regular, 0, 40, "isShort")
+    # --- blank-only lines are short whatever their length (variant blankShort)
+    blank = [not probe(" " * n + "\n").is_regular for n in (7, 10, 40, 72, 73, 80, 200)]
+    if len(set(blank)) != 1:
+        raise LookupError("fixed2free2.FortranLine: blank-only lines are neither always nor never comment lines")
+    out["blankShort"] = blank[0]
+    # --- `!` as first non-blank character in column 7+ (variant col7Comment)
+    bang7 = [not probe(" " * k + "! note\n").is_regular for k in (6, 7, 8, 20, 60)]
+    if len(set(bang7)) != 1:
+        raise LookupError("fixed2free2.FortranLine: `!` comment lines from column 7 on are not treated uniformly")
+    out["col7Comment"] = bang7[0]
+    if probe(" " * 5 + "! note\n").is_regular is not True or probe(" " * 5 + "! note\n").isContinuation is not True:
+        raise LookupError("fixed2free2.FortranLine: `!` in column 6 is not a continuation mark")
+
+    # --- `len(line) > 73 and length_limit`: from which length on a statement line has an overflow text
+    def stmt(n):
+        return "      " + "x" * (n - 7) + "\n"
+
+    out["longThreshold"] = _threshold(lambda n: not probe(stmt(n)).excess_line, 8, 200, "isLong")
+    if any(probe(stmt(n), False).excess_line for n in (60, 73, 74, 75, 100, 200)):
+        raise LookupError("fixed2free2.FortranLine: a line is cut although the length limit is off")
+
+    # --- `excess_line = <literal> + line[<colLimit>:]`
+    tail = "".join(chr(ord("A") + i % 26) + chr(ord("a") + (i // 26) % 26) for i in range(40))
+    lits, cols = set(), set()
+    for n in (out["longThreshold"] + 1, out["longThreshold"] + 9, 130):
+        line = ("      y = " + tail)[: n - 1].ljust(n - 1, "z") + "\n"
+        ex = probe(line).excess_line
+        k = next((k for k in range(len(line)) if ex.endswith(line[k:])), None)
+        if k is None or len(line) - k < 1:
+            raise LookupError("fixed2free2.FortranLine: overflow text is not `<literal> + line[k:]`")
+        lits.add(ex[: len(ex) - len(line[k:])])
+        cols.add(k)
+    if len(lits) != 1 or len(cols) != 1:
+        raise LookupError(f"fixed2free2.FortranLine: overflow text has no fixed literal / column ({lits}, {cols})")
+    out["excessLiteral"] = lits.pop()
+    out["colLimit"] = cols.pop()
+    if out["excessLiteral"] not in ("!", "! "):
+        raise LookupError(f"fixed2free2.FortranLine.__analyse: overflow mark {out['excessLiteral']!r} is neither '!' nor '! '")
+
+    # --- the column to which `__convert` and `continueLine` pad before the overflow text
+    pads = set()
+    for body in ("y = 1", "y = 1 +", "12345678901234567890"):
+        line = ("      " + body).ljust(out["colLimit"]) + "SEQ00010\n"
+        f = probe(line)
+        if not f.excess_line or not str(f).endswith(f.excess_line):
+            raise LookupError("fixed2free2.FortranLine.__convert: overflow text is not appended to the converted line")
+        pads.add(len(str(f)) - len(f.excess_line))
+        f.continueLine()
+        if not str(f).endswith(f.excess_line):
+            raise LookupError("fixed2free2.FortranLine.continueLine: overflow text is not appended to the continued line")
+        pads.add(len(str(f)) - len(f.excess_line))
+    out["padColumns"] = sorted(pads)
+
+    # --- the OpenMP sentinel: candidates are the string constants of the module, the test is the real code
+    src = Path(mod.__file__).read_text()
+    cands = sorted({n.value.lower() for n in ast.walk(ast.parse(src))
+                    if isinstance(n, ast.Constant) and isinstance(n.value, str) and len(n.value) == 4})
+
+    def is_sentinel(s4):
+        return all(probe(c + t + " parallel do\n").is_regular for c in out["commentChars"] for t in (s4, s4.upper()))
+
+    sent = [s for s in cands if is_sentinel(s)]
+    if len(sent) != 1:
+        raise LookupError(f"fixed2free2.FortranLine: OpenMP sentinel not identified (candidates {cands}, accepted {sent})")
+    out["ompSentinel"] = sent[0]
+    s = out["ompSentinel"]
+    for near in (s[:3] + " ", s[:3] + "q", " " + s[:3], s[1:] + " ", s[0] + "   ", "    ", s[0] * 4):
+        if near.lower() != s and is_sentinel(near):
+            raise LookupError(f"fixed2free2.FortranLine: columns 2-5 = {near!r} are taken for the sentinel {s!r} too")
+
+    # --- column 6: which non-blank characters do *not* make a continuation line
+    nots = "".join(c for c in PROBE_CHARS if not c.isspace() and not probe("     " + c + "x = 1\n").isContinuation)
+    out["notContChar"] = nots
+    for c in " \t":
+        if probe("     " + c + "x = 1\n").isContinuation:
+            raise LookupError("fixed2free2.FortranLine: a blank in column 6 makes a continuation line")
+
     need = {"commentChars": str, "shortThreshold": int, "longThreshold": int, "ompSentinel": str,
             "notContChar": str, "colLimit": int, "blankShort": bool, "col7Comment": bool, "excessLiteral": str}
     for k, t in need.items():
         if k not in out or not isinstance(out[k], t):
-            raise LookupError(f"fixed2free2.FortranLine.__analyse: construct for {k} not found")
-    if out["excessLiteral"] not in ("!", "! "):
-        raise LookupError(f"fixed2free2.FortranLine.__analyse: overflow mark {out['excessLiteral']!r} is neither '!' nor '! '")
-    # continueLine / __convert use the same column limit
-    lims = set()
-    for name in ("continueLine", "_FortranLine__convert", "__convert"):
-        if name in fn:
-            for c in ast.walk(fn[name]):
-                if isinstance(c, ast.Call) and isinstance(c.func, ast.Attribute) and c.func.attr == "ljust":
-                    lims.add(c.args[0].value)
-                if isinstance(c, ast.Slice) and isinstance(c.upper, ast.Constant) and c.upper.value > 6:
-                    lims.add(c.upper.value)
-    if not lims:
-        raise LookupError("ljust/slice column constants not found in continueLine/__convert")
-    out["padColumns"] = sorted(lims)
+            raise LookupError(f"fixed2free2.FortranLine: table {k} not derived")
+    return out
+
+
+def extract_settings() -> dict:
+    """The extension lists of a default project *as `Project` sees them*: `ProjectSettings()` is
+    constructed (so that `__post_init__` has run: `extensions` then also holds the preprocessed
+    extensions) and the lists are read from the object."""
+    common.import_ford()
+    from ford.settings import ProjectSettings
+
+    st = ProjectSettings()
+    out = {}
+    for k in ("extensions", "fixed_extensions", "fpp_extensions"):
+        v = getattr(st, k, None)
+        if not isinstance(v, list) or not all(isinstance(x, str) for x in v):
+            raise LookupError(f"ford.settings.ProjectSettings().{k} is not a list of strings")
+        out[k] = sorted(v)
+    if not out["fixed_extensions"]:
+        raise LookupError("ford.settings.ProjectSettings().fixed_extensions is empty")
     return out
 
 
 def translate():
     t = extract(common.REPO)
+    st = extract_settings()
+    t["settings"] = st
     lines = [
-        "/- GENERATED by translate/c14.py from ford/fixed2free2.py - do not edit -/",
+        "/- GENERATED by translate/c14.py from ford/fixed2free2.py (by probing the real FortranLine) - do not edit -/",
         "import FordModel.Basic.Chars",
         "namespace Ford.Fixed.Gen",
         "open Ford",
-        f"/-- `firstchar in {t['commentChars']!r}` -/",
+        f"/-- the characters that make a comment line in column 1: {t['commentChars']!r} (code-point order) -/",
         f"def commentChars : Str := {_lean_str(t['commentChars'])}",
         f"def shortThreshold : Nat := {t['shortThreshold']}",
         f"def longThreshold : Nat := {t['longThreshold']}",
@@ -112,11 +199,17 @@ def translate():
         f"def padColumns : List Nat := {t['padColumns']}",
         f"def ompSentinel : Str := {_lean_str(t['ompSentinel'])}",
         f"def notContChar : Str := {_lean_str(t['notContChar'])}",
-        "/-- the variant of the code, read from the shape of the assignments (see `Ford.Fixed.Variant`) -/",
+        "/-- the variant of the code (see `Ford.Fixed.Variant`) -/",
         f"def blankShort : Bool := {'true' if t['blankShort'] else 'false'}",
         f"def col7Comment : Bool := {'true' if t['col7Comment'] else 'false'}",
-        f"/-- `excess_line = {t['excessLiteral']!r} + line[72:]` -/",
+        f"/-- `excess_line = {t['excessLiteral']!r} + line[{t['colLimit']}:]` -/",
         f"def excessLiteral : Str := {_lean_str(t['excessLiteral'])}",
+        "/-- `ProjectSettings()` after `__post_init__` (sorted): "
+        f"extensions {st['extensions']!r}, fixed_extensions {st['fixed_extensions']!r}, "
+        f"fpp_extensions {st['fpp_extensions']!r} -/",
+        f"def extensions : List Str := {_lean_strs(st['extensions'])}",
+        f"def fixedExtensions : List Str := {_lean_strs(st['fixed_extensions'])}",
+        f"def fppExtensions : List Str := {_lean_strs(st['fpp_extensions'])}",
         "end Ford.Fixed.Gen",
         "",
     ]
